@@ -454,6 +454,14 @@ def lattice(thorough):
                                 continue        # quick: every fs at nxseg 16; beyond, fs rotates over (overlap, length, references)
                             for method in ("per", "cor"):
                                 out.append((len(out), n_all, refs, nxseg, pov, nseg, fs, method))
+            # decimal overlap fractions on segment lengths that are not powers of two (nxseg*pov is an integer, but 1 - pov is not
+            # exactly representable: a hop computed as int(nxseg*(1-pov)) would be one sample short)
+            if n_all <= (4 if thorough else 3):
+                for nxseg in (20, 100):
+                    for pi, pov in enumerate((0.3, 0.7, 0.8, 0.9)):
+                        for si, nseg in enumerate((3, 5.5)):
+                            fs = FSS[(pi + si + len(refs)) % 3]
+                            out.append((len(out), n_all, refs, nxseg, pov, nseg, fs, "per"))
             # odd segment lengths (periodogram only): the last line is not Nyquist and must be doubled like the others
             if n_all <= (4 if thorough else 3):
                 for nxseg in (25, 75):
